@@ -34,9 +34,10 @@ def step (st : Unit) (j : Json) : Unit × Json :=
           | .ok f => pure (okJson (floatsToJson f))
           | .error e => pure (errJson e)
         else
-          match parseFilter name with
-          | some nm => pure (okJson (floatsToJson (fourierFilterSk nm size)))
-          | none => throw "bad filter name"
+          -- even sizes: the closed form the theorems are about; every size: skimage's literal n array + size check
+          match fourierFilterSkE (R := Float) size name with
+          | .ok f => pure (okJson (floatsToJson f))
+          | .error e => pure (errJson e)
     | "iradon" =>
         let n ← natField j "n"
         let sino := chunk (← floatList (← field j "sino")) n
